@@ -113,6 +113,12 @@ func Project(doc, projection bsonkit.Doc) (bsonkit.Doc, error) {
 
 	// merge fields (overlays from operator expressions)
 	for path, value := range state.merge {
+		// overlays are windows and elements of arrays of the original
+		// document: detach them as another overlay may be written below
+		if len(state.merge) > 1 {
+			value = (*bsonkit.Clone(&bson.D{{Key: "v", Value: value}}))[0].Value
+		}
+
 		_, err := bsonkit.Put(res, path, value, false)
 		if err != nil {
 			return nil, err
